@@ -202,6 +202,14 @@ _g_counter = [0]
 
 def make_filtered(cx, src: Arr, mask: Arr) -> Filtered:
     """A[mask]: ghost increasing enumeration g of the true positions (assumed numpy contract)."""
+    cm = concrete_list(mask)
+    if cm is not None:
+        idx = [i for i, m in enumerate(cm) if m]
+        sfn0 = src.fn
+        f = Filtered(mask, lambda i: sfn0(i), src.kind, len(idx), lambda k: idx[k] if isinstance(k, int) else V.to_z3(k))
+        f.ginv = lambda i: idx.index(i)
+        f.count = len(idx)
+        return f
     cache = cx.ghost.setdefault("mask_enum", {})
     _probe = z3.Int("probe!mask")
     _saved = {k: dict(v) for k, v in V.APPS.items()}
@@ -339,7 +347,9 @@ def index(cx, arr: Arr, idx):
 
     res = Arr(tuple(out_shape), fn, arr.kind)
     # obligations for fancy indices: generic element of the index arrays
-    if fancy:
+    if fancy and all(isinstance(d, int) for d in fshape) and all(concrete_nd(f) for f in fancy):
+        pass  # concrete index arrays (encoder validation): nothing to prove
+    elif fancy:
         gi = [cx.fresh("p") for _ in fshape]
         rng = [z3.And(g >= 0, g < V.to_z3(s)) for g, s in zip(gi, fshape)]
         n0 = len(cx.pc)
@@ -519,7 +529,7 @@ def arr_attr(interp, arr: Arr, name):
 
 def _round_arr(arr):
     # rounding keeps the float dtype in numpy; the value is an integer
-    return map1(arr, lambda x: V.to_real(V.s_round(x)), "real")
+    return map1(arr, lambda x: V.cast_kind(V.s_round(x), "real"), "real")
 
 
 class Raveled(Arr):
@@ -581,6 +591,37 @@ def scalar_attr(interp, x, name):
     raise Unsupported(f"attribute {name} of a scalar")
 
 
+# ---------------------------------------------------------------- concrete mode (encoder validation)
+
+
+def concrete_nd(a):
+    """True when shape and all elements of the array are concrete."""
+    import itertools
+
+    if not isinstance(a, Arr) or not all(isinstance(d, int) for d in a.shape):
+        return False
+    try:
+        for idx in itertools.product(*[range(d) for d in a.shape]):
+            if V.is_z3(a.fn(*idx)):
+                return False
+    except Unsupported:
+        return False
+    return True
+
+
+def concrete_list(a):
+    """Elements of a 1-D array whose shape and elements are all concrete, else None."""
+    if not isinstance(a, Arr) or a.ndim != 1 or not isinstance(a.shape[0], int):
+        return None
+    out = []
+    for i in range(a.shape[0]):
+        v = a.fn(i)
+        if V.is_z3(v):
+            return None
+        out.append(v)
+    return out
+
+
 # ---------------------------------------------------------------- reductions
 
 
@@ -609,6 +650,11 @@ def array_max(cx, arr):
     if arr.ndim != 1:
         raise Unsupported("max of a multi-dimensional array")
     n = arr.shape[0]
+    cl = concrete_list(arr)
+    if cl is not None:
+        if not cl:
+            raise PyRaise("ValueError", ("zero-size array to reduction operation",))
+        return max(cl)
     if cx.fork(V.s_cmp("==", n, 0)):
         raise PyRaise("ValueError", ("zero-size array to reduction operation",))
     sort = "real" if arr.kind == "real" else "int"
@@ -643,6 +689,9 @@ def np_any(interp, a, **kw):
         return V.sbool(a)
     if a.ndim != 1:
         raise Unsupported("np.any on a multi-dimensional array")
+    cl = concrete_list(a)
+    if cl is not None:
+        return any(bool(x) for x in cl)
     b = cx.fresh("any", "bool")
     w = cx.fresh("witness")
     n = V.to_z3(a.shape[0])
@@ -660,6 +709,9 @@ def np_all(interp, a, **kw):
         return V.sbool(a)
     if a.ndim != 1:
         raise Unsupported("np.all on a multi-dimensional array")
+    cl = concrete_list(a)
+    if cl is not None:
+        return all(bool(x) for x in cl)
     b = cx.fresh("all", "bool")
     w = cx.fresh("witness")
     n = V.to_z3(a.shape[0])
@@ -718,6 +770,10 @@ def transc_apply(name, v):
 def transcendental(name):
     def call(interp, x):
         def one(v):
+            if not V.is_z3(v):
+                import math
+
+                return Fraction(repr(float(getattr(math, name)(float(v)))))
             interp.cx.ghost.setdefault("transc", set()).add(name)
             return transc_apply(name, v)
 
@@ -780,7 +836,8 @@ def np_arange(interp, *args, dtype=None):
 def np_linspace(interp, a, b, num):
     # a + i*(b-a)/(num-1)
     def fn(i):
-        return V.s_binop("+", V.to_real(a), V.s_binop("/", V.s_binop("*", V.to_real(i), V.s_binop("-", V.to_real(b), V.to_real(a))), V.s_binop("-", V.to_real(num), 1)))
+        r = V.s_binop("+", a, V.s_binop("/", V.s_binop("*", i, V.s_binop("-", b, a)), V.s_binop("-", num, 1)))
+        return V.cast_kind(r, "real")
 
     return Arr((num,), fn, "real")
 
@@ -913,6 +970,11 @@ def np_searchsorted(interp, a, v, side="left"):
     cx = interp.cx
     if side != "left" or not isinstance(a, Arr) or a.ndim != 1 or isinstance(v, Arr):
         raise Unsupported("searchsorted form")
+    cl = concrete_list(a)
+    if cl is not None and not V.is_z3(v):
+        import bisect
+
+        return bisect.bisect_left([float(x) for x in cl], float(v))
     k = cx.fresh("k")
     n = V.to_z3(a.shape[0])
     cx.assume(z3.And(k >= 0, k <= n))
